@@ -176,6 +176,7 @@ def run(tier, seed):
         "bufio.Scanner's buffer is not modelled: the model's split sees the whole remaining input; true of the real decoder as long as an entry plus the header of the next fits in bufio.MaxScanTokenSize (65536 bytes); generated entries stay below 21 KB",
         "regexp, time.Parse, strconv.Atoi and strings.TrimSpace are modelled by hand-written functions (match_at, time_ok, span_digits, trim_space) and exercised by the cases, incl. perturbed streams; a multi-byte rune matched by the regexp's unescaped '.' is outside the model",
         "rotation/GC: a message is (identifier, byte length of its formatted entry); the per-file header entries are a constant size measured by calibration at the start and re-checked at the end of the run; sizes are sizes after log.Flush(); GC runs right after a flush; file names generated by create() are assumed new",
+        "header widths are constant only if the goroutine id the logger prints is: the vendored petermattis/goid (2018) reads a runtime status word on go1.23 (2, or 4098 while the GC scans the stack), so the harness runs the logger histories with the Go garbage collector off and discards+redoes a history in whose files two goroutine ids appear (count: distribution.hist_discarded_goid_glitch)",
         "planted files have distinct time stamps older than the run (sort order of equal stamps is unspecified in selectFiles)",
         "gcOldFiles lists logging.logDir (the main logger's directory) even for a secondary logger: model and harness use secondary loggers in the main logger's directory, which is the only way shakespeare creates them",
     ]
@@ -221,7 +222,7 @@ def run(tier, seed):
                  "non-trivial = at least two files at the end or a GC run; distinct by operation list."),
         "samples": summary["samples"],
         "distribution": {k: summary[k] for k in ("codec", "codec_entries", "codec_classes", "raw", "raw_kinds", "probe",
-                                                  "hist", "hist_log_ops", "hist_gc_ops", "hist_files_at_end", "calibration")},
+                                                  "hist", "hist_error", "hist_discarded_goid_glitch", "hist_log_ops", "hist_gc_ops", "hist_files_at_end", "calibration")},
         "outside_guard_probes": {"kinds": summary["probe_kinds"], "real_roundtrip_failures": summary["probe_roundtrip_failures"]},
         "traces_validated_against_impl": summary["hist"],
         "shards": nshards,
@@ -259,6 +260,9 @@ def run(tier, seed):
         res.violation(sig, "rotation/GC history on the real %s logger violates the property (%s)" % (c["Logger"], sig),
                       {"kind": "failing-input", "input": c, "index": idx,
                        "replay": "./check C16 --tier %s --seed %d (history %d)" % (tier, seed, idx)})
+    if summary.get("hist_error") and not res.violations:
+        res.violation(None, "the real loggers could not be driven (rotation/GC part of the check did not run): %s" % summary["hist_error"],
+                      {"kind": "harness-hist-error", "error": summary["hist_error"]}, no_input=True)
     if not res.violations:
         # model/implementation disagreement without a property failure
         for name, key, wh in (("Mfmt", "codec", "formatter"), ("Mdec", "codec", "decoder"), ("Mraw", "raw", "decoder on perturbed streams"),
